@@ -69,6 +69,9 @@ def c01(ctx: Ctx) -> None:
     RE.rule_call_arity(ctx)
     RP.rule_refine_wrapper(ctx)
     RA.rule_soundness(ctx, RA.POLY, ["compose"])
+    # the unions and differences the algebra takes are exact only if == on terms is: a == that identifies two
+    # different terms makes `|` drop one of them (an assumption or a guarantee silently lost)
+    RS.rule_eq(ctx)
     RK.rule_term_kernels(ctx, ["multiply", "add", "remove", "substitute", "isolate"])
     RP.rule_dispatcher(ctx)
     RP.rule_transform(ctx)
@@ -85,6 +88,7 @@ def c02(ctx: Ctx) -> None:
     RE.rule_call_arity(ctx)
     RP.rule_refine_wrapper(ctx)
     RA.rule_soundness(ctx, RA.POLY, ["quotient"])
+    RS.rule_eq(ctx)  # as for C01: `|` and `-` rest on exact term equality
     RK.rule_term_kernels(ctx, ["multiply", "add", "remove", "substitute", "isolate"])
     RP.rule_dispatcher(ctx)
     RP.rule_transform(ctx)
@@ -103,6 +107,7 @@ def c08(ctx: Ctx) -> None:
     RA.rule_soundness(ctx, RA.POLY, ["merge"])
     RA.rule_interfaces(ctx, RA.POLY, ["merge"])
     RA.rule_tl_operators(ctx)
+    RS.rule_eq(ctx)  # the conjunction is a union of term lists: exact only if == on terms is
     _simplify_primitive(ctx)
     RA.rule_constructor(ctx, RA.POLY)
 
